@@ -495,9 +495,23 @@ def check_dh_split(ctx) -> None:
     def gtxt(t, stmt):
         # named intermediates of the loop body (`hourly_demand = daily[j] / 24`) are read through; the well output stays symbolic
         return norm(_ibl(t, stmt, keep=('current_heat_output',)))
+    def is_split_test(t, stmt) -> bool:
+        # `demand / 24 > output` (or mirrored), whatever the loop variable and intermediates are called: decided on the translated operands
+        if gtxt(t, stmt) in GUARD:
+            return True
+        e = _ibl(t, stmt, keep=('current_heat_output',))
+        if not (isinstance(e, ast.Compare) and len(e.ops) == 1 and isinstance(e.ops[0], (ast.Gt, ast.Lt))):
+            return False
+        try:
+            l, r = _tr(e.left, atom_of=at), _tr(e.comparators[0], atom_of=at)
+        except Exception:
+            return False
+        if isinstance(e.ops[0], ast.Lt):
+            l, r = r, l
+        return l.equals(demand) and r.equals(out)
     for s in used:
-        short = any(pol and gtxt(t, s.stmt) in GUARD for t, pol in s.guards)
-        over = any((not pol) and gtxt(t, s.stmt) in GUARD for t, pol in s.guards)
+        short = any(pol and is_split_test(t, s.stmt) for t, pol in s.guards)
+        over = any((not pol) and is_split_test(t, s.stmt) for t, pol in s.guards)
         v = _tr(_ibl(s.value, s.stmt, keep=('current_heat_output',)), atom_of=at)
         if short:
             b = _tr(_ibl(boil[0].value, boil[0].stmt, keep=('current_heat_output',)), atom_of=at)
@@ -510,8 +524,12 @@ def check_dh_split(ctx) -> None:
                       f'when the wells cover demand the geothermal supply is `{v.show()}`, not the demand (never more than needed, boiler 0)',
                       fact='geothermal = demand <= output')
         else:
+            comps = [t for t, _ in s.guards if isinstance(t, ast.Compare)]
+            if not comps:
+                raise AnalysisError(f'calc_util_factor: the geothermal supply is stored under guards {[norm(t) for t, _ in s.guards]} that are not a '
+                                    f'comparison of demand with output (rewritten): cannot decide')
             ctx.bad('F8', 'calc_util_factor/split-guard', f'{rel}:{s.line}', f'geothermal supply stored under guards {[norm(t) for t, _ in s.guards]}')
-        ctx.check(norm(s.index) == 'current_index', 'F8', f'calc_util_factor/index@{s.line}', f'{rel}:{s.line}', 'split stored at another index')
+        ctx.check(norm(s.index) == norm(boil[0].index), 'F8', f'calc_util_factor/index@{s.line}', f'{rel}:{s.line}', 'split stored at another index than the boiler demand')
 
 
 def check_shared_storage(ctx) -> None:
